@@ -854,14 +854,85 @@ Qed.
    generated file); and an argument that is a sum is spliced in without parentheses -> another value *)
 Example surgery_refuted_unbalanced :
   balanced (s2l "identity(a*(b + k))") = true /\
-  option_map balanced (process_func_call (s2l "identity(a*(b + k))") (s2l "identity") (s2l "a*(b + k)")) = Some false.
-Proof. split; vm_compute; reflexivity. Qed.
+  option_map balanced (process_func_call (s2l "identity(a*(b + k))") (s2l "identity") (s2l "a*(b + k)")) = Some false /\
+  option_map balanced (identity_surgery (s2l "identity(a*(b + k))") (s2l "a*(b + k)")) = Some false.
+Proof. split; [|split]; vm_compute; reflexivity. Qed.
 
-Example surgery_refuted_precedence :
+(* ---- the repaired identity/no_op branch (D41): the marker call is replaced by "(" arg ")" ---- *)
+Lemma prefix_app_l : forall a b s, prefix (a ++ b) s = true -> prefix a s = true.
+Proof.
+  induction a as [|x a IH]; intros b s H; [reflexivity|]. destruct s as [|y s]; [discriminate|].
+  simpl in *. apply andb_true_iff in H. destruct H as [H1 H2]. rewrite H1. simpl. apply (IH b s H2).
+Qed.
+Lemma find_succ_inv p c s n : find p (c :: s) = Some (S n) -> prefix p (c :: s) = false /\ find p s = Some n.
+Proof.
+  simpl. destruct (prefix p (c :: s)); [discriminate|]. destruct (find p s); simpl; intros H; [|discriminate].
+  injection H as ->. auto.
+Qed.
+Lemma replace_noocc old new : forall n s, find old s = None -> replace_fuel n old new s = s.
+Proof.
+  induction n as [|n IH]; intros s H; [reflexivity|]. simpl.
+  destruct (prefix old s) eqn:P; [rewrite (find_prefix old s P) in H; discriminate|].
+  destruct s as [|c s]; [reflexivity|]. f_equal. apply IH.
+  simpl in H. rewrite P in H. destruct (find old s); [discriminate|reflexivity].
+Qed.
+Lemma replace_first p0 old new post : (forall s, prefix old s = true -> prefix p0 s = true) ->
+  forall pre n, find p0 (pre ++ old ++ post) = Some (List.length pre) -> n > List.length pre ->
+  replace_fuel n old new (pre ++ old ++ post) = pre ++ new ++ replace_fuel (n - List.length pre - 1) old new post.
+Proof.
+  intros HP. induction pre as [|c pre IH]; intros n F L.
+  - destruct n as [|n]; [lia|]. cbn [app List.length]. simpl replace_fuel. rewrite prefix_app, skipn_app_len.
+    replace (S n - 0 - 1) with n by lia. rewrite ?Nat.sub_0_r. reflexivity.
+  - destruct n as [|n]; [simpl in L; lia|]. cbn [app List.length] in *. apply find_succ_inv in F. destruct F as [F1 F2].
+    simpl replace_fuel.
+    destruct (prefix old (c :: pre ++ old ++ post)) eqn:P; [rewrite (HP _ P) in F1; discriminate|].
+    rewrite (IH n F2) by lia. reflexivity.
+Qed.
+
+Lemma call_shape (f arg post : str) : (f ++ "(" :: arg ++ [")"]) ++ post = f ++ "(" :: arg ++ ")" :: post.
+Proof. rewrite <- app_assoc. cbn [app]. rewrite <- app_assoc. reflexivity. Qed.
+
+Theorem identity_surgery_text pre arg post :
+  let call := s2l "identity" ++ "(" :: arg ++ [")"] in
+  find (s2l "identity" ++ ["("]) (pre ++ s2l "identity" ++ "(" :: arg ++ ")" :: post) = Some (List.length pre) ->
+  notin ")" arg = true -> find call post = None ->
+  identity_surgery (pre ++ s2l "identity" ++ "(" :: arg ++ ")" :: post) arg = Some (pre ++ "(" :: arg ++ ")" :: post).
+Proof.
+  intros call F N NO. unfold identity_surgery. rewrite surgery_atomic; auto. f_equal.
+  fold call.
+  replace (pre ++ s2l "identity" ++ "(" :: arg ++ ")" :: post) with (pre ++ call ++ post) in *
+    by (unfold call; rewrite call_shape; reflexivity).
+  assert (NE : py_replace call ("(" :: arg ++ [")"]) (pre ++ call ++ post) =
+               replace_fuel (S (List.length (pre ++ call ++ post))) call ("(" :: arg ++ [")"]) (pre ++ call ++ post))
+    by reflexivity.
+  rewrite NE. rewrite (replace_first (s2l "identity" ++ ["("])); auto.
+  - rewrite replace_noocc; auto. cbn [app]. rewrite <- app_assoc. reflexivity.
+  - intros s P. apply (prefix_app_l (s2l "identity" ++ ["("]) (arg ++ [")"])).
+    replace ((s2l "identity" ++ ["("]) ++ arg ++ [")"]) with call by (unfold call; rewrite <- app_assoc; reflexivity).
+    exact P.
+  - rewrite app_length. lia.
+Qed.
+
+(* the same tokens X read as `f(X)` and as `(X)`: Call f [a] and a; the marker call evaluates like its argument *)
+Lemma pE_rp_none m X : pE m (TRp :: X) = None.
+Proof. destruct m as [|[|[|[|[|m]]]]]; reflexivity. Qed.
+Theorem call_vs_paren m X a r f : pE m X = Some (a, TRp :: r) ->
+  pA (S (S m)) (TId f :: TLp :: X) = Some (Call f [a], r) /\ pA (S m) (TLp :: X) = Some (a, r).
+Proof.
+  intros H. split.
+  - destruct X as [|t X]; [|destruct t]; try (cbn [pA pArgs]; rewrite H; reflexivity).
+    rewrite pE_rp_none in H. discriminate.
+  - rewrite pA_paren, H. reflexivity.
+Qed.
+Theorem eval_identity env venv a : eval env venv (Call (s2l "identity") [a]) = eval env venv a /\
+  eval env venv (Call (s2l "no_op") [a]) = eval env venv a.
+Proof. split; destruct a; reflexivity. Qed.
+
+Example surgery_repaired_precedence :
   let env := [(s2l "r", mkq 3 2); (s2l "rr", mkq 1 4)] in
-  process_func_call (s2l "2*identity(r + rr)") (s2l "identity") (s2l "r + rr") = Some (s2l "2*r + rr") /\
+  identity_surgery (s2l "2*identity(r + rr)") (s2l "r + rr") = Some (s2l "2*(r + rr)") /\
   oq_eqb (eval_string env [] (s2l "2*no_op(r + rr)")) (Some (mkq 7 2)) = true /\
-  oq_eqb (eval_string env [] (s2l "2*r + rr")) (Some (mkq 13 4)) = true.
+  oq_eqb (eval_string env [] (s2l "2*(r + rr)")) (Some (mkq 7 2)) = true.
 Proof. split; [|split]; vm_compute; reflexivity. Qed.
 
 (* calls round-trip on examples (the general proof covers the operator subset only) *)
